@@ -101,7 +101,8 @@ def designed(msg: str) -> bool:
 
 
 def is_bool_shape(b: ast.expr) -> bool:
-    return isinstance(b, (ast.Compare, ast.BoolOp))
+    """a comparison or a boolean combination (and / or / not)"""
+    return isinstance(b, (ast.Compare, ast.BoolOp)) or (isinstance(b, ast.UnaryOp) and isinstance(b.op, ast.Not))
 
 
 # ------------------------------------------------------------------ generators
